@@ -8,10 +8,20 @@
 //@ assume: prunable path (bitmap = Some) not covered: croaring::Bitmap is C code behind FFI
 //@ repeat S in 1..=2
 //@ repeat H in 0..=2
-//@ harness seg_validate_nopanic_{S}_h{H} kind=bounded tier=quick fns=Segment::root,Segment::validate,Segment::first_unpruned_parent,Segment::get_hash,SegmentProof::validate,SegmentProof::reconstruct_root,SegmentIdentifier::segment_pos_range,SegmentIdentifier::segment_unpruned_size,SegmentIdentifier::full_segment,SegmentIdentifier::leaf_offset,SegmentIdentifier::segment_capacity bound=mmr_size_1..=2_quick_/_3..=8_thorough_(best_effort)_(one_harness_per_size_and_height);_<=2_hashes,_<=2_leaves,_<=2_proof_hashes_with_arbitrary_positions;_identifiers_height_0..=2,_idx_0..=(size>>height)+2,_plus_(63,2),(64,1),(255,u64::MAX);_bitmap=None
+//@ harness seg_validate_nopanic_{S}_h{H} kind=bounded tier=quick fns=Segment::root,Segment::validate,Segment::first_unpruned_parent,Segment::get_hash,SegmentProof::validate,SegmentProof::reconstruct_root,SegmentIdentifier::segment_pos_range,SegmentIdentifier::segment_unpruned_size,SegmentIdentifier::full_segment,SegmentIdentifier::leaf_offset,SegmentIdentifier::segment_capacity bound=mmr_size_1..=2_and_4_quick_(4_=_the_smallest_MMR_with_a_peak_to_the_right_of_a_segment)_/_3,_5..=8_thorough_(best_effort)_(one_harness_per_size_and_height);_<=2_hashes,_<=2_leaves,_<=2_proof_hashes_with_arbitrary_positions;_identifiers_height_0..=2,_idx_0..=(size>>height)+2,_plus_(63,2),(64,1),(255,u64::MAX);_bitmap=None
 //@ end
 //@ end
-//@ repeat S in 3..=8
+//@ repeat S in 4..=4
+//@ repeat H in 0..=2
+//@ harness seg_validate_nopanic_{S}_h{H} kind=bounded tier=quick fns=Segment::root,Segment::validate,Segment::first_unpruned_parent,Segment::get_hash,SegmentProof::validate,SegmentProof::reconstruct_root,SegmentIdentifier::segment_pos_range,SegmentIdentifier::segment_unpruned_size,SegmentIdentifier::full_segment,SegmentIdentifier::leaf_offset,SegmentIdentifier::segment_capacity bound=mmr_size_1..=2_and_4_quick_(4_=_the_smallest_MMR_with_a_peak_to_the_right_of_a_segment)_/_3,_5..=8_thorough_(best_effort)_(one_harness_per_size_and_height);_<=2_hashes,_<=2_leaves,_<=2_proof_hashes_with_arbitrary_positions;_identifiers_height_0..=2,_idx_0..=(size>>height)+2,_plus_(63,2),(64,1),(255,u64::MAX);_bitmap=None
+//@ end
+//@ end
+//@ repeat S in 3..=3
+//@ repeat H in 0..=2
+//@ harness seg_validate_nopanic_{S}_h{H} kind=bounded tier=thorough optional=1 fns=Segment::root,Segment::validate bound=mmr_size_{S}
+//@ end
+//@ end
+//@ repeat S in 5..=8
 //@ repeat H in 0..=2
 //@ harness seg_validate_nopanic_{S}_h{H} kind=bounded tier=thorough optional=1 fns=Segment::root,Segment::validate bound=mmr_size_{S}
 //@ end
